@@ -10,6 +10,9 @@ Import ListNotations.
 Require Import V.base.Fld V.model.Ecdsa V.model.Schnorr V.model.Bls.
 Require Import V.proofs.ZnInv_proofs V.proofs.Ecdsa_proofs V.proofs.Schnorr_proofs V.proofs.Bls_proofs.
 Local Open Scope Z_scope.
+Arguments be_sig {M} _.
+Arguments be_pk {M} _.
+Arguments be_m {M} _.
 
 (* ======================================== ECDSA ================================================== *)
 (* hypotheses on the curve maps, used below:
@@ -310,6 +313,66 @@ Theorem C15_wire_shifted_scalar_rejected : forall n yodd M (chal : Z -> Z -> M -
   forall pk, mina_verify_wire n M chal p lift_even rx (s + k * n) pk m = false.
 Proof. exact wire_shifted_component_rejected. Qed.
 Print Assumptions C15_wire_shifted_scalar_rejected.
+
+(* batch verification.  bip340.BatchVerify checks (sum a_i s_i) G = sum a_i lift_x(R_i) + sum a_i e_i lift_x(P_i)
+   with a_1 = 1 and the other coefficients drawn by the verifier (coefs is the whole coefficient list):
+   - if every signature verifies on its own, the batch is accepted for every choice of coefficients;
+   - a batch of one signature is exactly single verification;
+   - if the batch and the batch with EVERY response negated both pass, the left-hand side sum a_i s_i vanishes
+     (never for a batch of one: that altered batch is rejected);
+   - changing one response is rejected whenever its coefficient is non-zero.
+   Soundness for general alterations holds only with probability over the coefficients and is not claimed. *)
+Theorem C15_bip340_batch_complete : forall n yodd M (chal : Z -> Z -> M -> Z),
+  prime n ->
+  (forall a, 0 < a < n -> yodd (n - a) = negb (yodd a)) ->
+  forall (es : list (bentry M)) coefs,
+  es <> [] -> length coefs = length es ->
+  (forall e, In e es -> entry_ok n M e /\ bip_verify n yodd M chal (be_sig e) (be_pk e) (be_m e) = true) ->
+  bip_batch_verify n yodd M chal coefs es = true.
+Proof. exact bip_batch_complete. Qed.
+Print Assumptions C15_bip340_batch_complete.
+
+Theorem C15_bip340_batch_of_one_is_single_verify : forall n yodd M (chal : Z -> Z -> M -> Z),
+  prime n ->
+  (forall a, 0 < a < n -> yodd (n - a) = negb (yodd a)) ->
+  forall sg pk m,
+  0 < g_k (s_R sg) < n -> 0 < g_k pk < n -> ~ eqm n (s_s sg) 0 -> g_tf pk = true ->
+  bip_batch_verify n yodd M chal [1] [mk_bentry M sg pk m] = bip_verify n yodd M chal sg pk m.
+Proof. exact bip_batch_one_equiv_single. Qed.
+Print Assumptions C15_bip340_batch_of_one_is_single_verify.
+
+Theorem C15_bip340_batch_all_responses_negated : forall n yodd M (chal : Z -> Z -> M -> Z),
+  prime n ->
+  forall (es : list (bentry M)) coefs,
+  2 < n ->
+  bip_batch_verify n yodd M chal coefs es = true ->
+  bip_batch_verify n yodd M chal coefs (map (neg_s n M) es) = true -> batch_left n M coefs es = 0.
+Proof. exact bip_batch_all_s_negated. Qed.
+Print Assumptions C15_bip340_batch_all_responses_negated.
+
+Theorem C15_bip340_batch_of_one_negated_rejected : forall n yodd M (chal : Z -> Z -> M -> Z),
+  prime n ->
+  forall e : bentry M,
+  2 < n -> ~ eqm n (s_s (be_sig e)) 0 ->
+  bip_batch_verify n yodd M chal [1] [e] = true -> bip_batch_verify n yodd M chal [1] [neg_s n M e] = false.
+Proof. exact bip_batch_one_s_negated_rejected. Qed.
+Print Assumptions C15_bip340_batch_of_one_negated_rejected.
+
+Theorem C15_bip340_batch_one_response_changed : forall n yodd M (chal : Z -> Z -> M -> Z),
+  prime n ->
+  forall (l1 : list (bentry M)) c1 e a l2 c2 s',
+  length c1 = length l1 -> ~ eqm n a 0 ->
+  bip_batch_verify n yodd M chal (c1 ++ a :: c2) (l1 ++ e :: l2) = true ->
+  bip_batch_verify n yodd M chal (c1 ++ a :: c2) (l1 ++ set_s M e s' :: l2) = true -> eqm n (s_s (be_sig e)) s'.
+Proof. exact bip_batch_one_s_changed. Qed.
+Print Assumptions C15_bip340_batch_one_response_changed.
+
+(* VerifierTrait.BatchVerify (generic variant, Mina) verifies one entry after the other *)
+Theorem C15_schnorr_batch_iff : forall n M (chal : Z -> Z -> M -> Z) neg_resp encR encP (es : list (bentry M)),
+  gen_batch_verify n M chal neg_resp encR encP es = true <->
+  (forall e, In e es -> gen_verify n M chal neg_resp encR encP (be_sig e) (be_pk e) (be_m e) = true).
+Proof. exact gen_batch_iff. Qed.
+Print Assumptions C15_schnorr_batch_iff.
 
 (* ============================================ BLS ================================================ *)
 (* feq q f g: the linear forms f, g have the same coefficients mod q (the same group element) *)
